@@ -68,7 +68,12 @@ Record xcfg := {
   xb : cfg;                       (* the base configuration *)
   read_of : N -> N;               (* tr->read of the function's trigger (0 = no TRIGGER_FL_READ) *)
   wp_cpu : bool; wp_var : bool;   (* mcount_watchpoints *)
-  pmu_ok : bool                   (* perf_event_open works (else read_pmu_event fails: event skipped) *)
+  pmu_ok : bool;                  (* perf_event_open works (else read_pmu_event fails: event skipped) *)
+  (* which of two variants the code under test implements at two decision points (both [false] = the code
+     as found; [true] = the code with proposed-fixes/C17-2.diff / C17-3.diff applied).  The tie determines
+     the variant with the dedicated witnesses before it runs the generated cases. *)
+  fix_var : bool;                 (* save_watchpoint updates the thread's copy of the variable it compares with *)
+  fix_drop : bool                 (* the invalidation compares with mtdp->idx - 1 (the exiting frame's own index) *)
 }.
 
 (* red->save(): None = failure (the event is skipped) *)
@@ -101,7 +106,7 @@ Record xpart := {
   w_inited : bool;                (* mtdp->watch.inited *)
   w_cpu : Z;                      (* mtdp->watch.cpu *)
   v_copy : option N;              (* the thread's copy of the watched variable (made by mcount_watch_setup
-                                     at the thread's first hook; the code never updates it) *)
+                                     at the thread's first hook; the code as found never updates it) *)
   g_init : bool; g_val : N;       (* the global watch item: inited, data (mcount_watch_update) *)
   xout : list item
 }.
@@ -174,12 +179,14 @@ Definition x_watch (C : xcfg) (f : frame) (pos : N) (o : oval) (X : xpart) : xpa
   let wc := if wp_cpu C then c else w_cpu X in
   let v := o_var o in
   let copy := match v_copy X with Some y => y | None => v end in
-  let hit := wp_var C && negb (full p1) && negb (v =? copy) && negb (g_init X && (v =? g_val X)) in
+  let differs := wp_var C && negb (full p1) && negb (v =? copy) in          (* memcmp with the thread's copy *)
+  let hit := differs && negb (g_init X && (v =? g_val X)) in               (* mcount_watch_update *)
   let p2 := if hit
             then p1 ++ [{| a_ev := {| e_time := ts; e_id := C17_EVENT_ID_WATCH_VAR; e_data := [v] |};
                            a_idx := pos |}]
             else p1 in
-  {| xs := xs X; pend := p2; w_inited := true; w_cpu := wc; v_copy := v_copy X;
+  {| xs := xs X; pend := p2; w_inited := true; w_cpu := wc;
+     v_copy := if fix_var C && differs then Some v else v_copy X;
      g_init := if hit then true else g_init X; g_val := if hit then v else g_val X; xout := xout X |}.
 
 (* ---------------------------------------------------------------- record_ret_stack with events *)
@@ -314,7 +321,7 @@ Definition x_leave (C : xcfg) (s : st) (X : xpart) (t : N) (o : oval) : xpart :=
         let X1 := x_watch C top1 (N.of_nat (length anc)) o Xp in
         if exit_cond c s top1 then
           let '(its, p') := x_rtd top1 x1 anc axs (pend X1) in emit X1 its p'
-        else set_pend X1 (invalidate (idx s) (pend X1))
+        else set_pend X1 (invalidate (if fix_drop C then idx s - 1 else idx s) (pend X1))
   end.
 
 (* ---------------------------------------------------------------- driver *)
@@ -389,8 +396,9 @@ Fixpoint xrecs (C : xcfg) (thr lim d : N) (k : xcall) : list item :=
   end.
 
 (* plain base configuration (no -F/-N/-T filter options) + read triggers, no watch points *)
-Definition xplain (thr gd ms : N) (sh : shape) (rd : N -> N) (pm : bool) : xcfg :=
-  {| xb := plain thr gd ms sh; read_of := rd; wp_cpu := false; wp_var := false; pmu_ok := pm |}.
+Definition xplain (thr gd ms : N) (sh : shape) (rd : N -> N) (pm fv fd : bool) : xcfg :=
+  {| xb := plain thr gd ms sh; read_of := rd; wp_cpu := false; wp_var := false; pmu_ok := pm;
+     fix_var := fv; fix_drop := fd |}.
 
 (* ---------------------------------------------------------------- specification: watch decisions
    The sequence of observations a thread makes (one per hook that reaches save_watchpoint) against
@@ -463,8 +471,8 @@ Definition agree_x (C : xcfg) (es : list xev) (ostates : list (xobs)) (oitems : 
   list_eqb xo_eqb l ostates && list_eqb oitem_eqb (map oseen (xout X)) oitems.
 
 (* table-driven configuration *)
-Definition mkxcfg (b : cfg) (rd : list (N * N)) (wc wv pm : bool) : xcfg :=
-  {| xb := b; read_of := assoc 0 rd; wp_cpu := wc; wp_var := wv; pmu_ok := pm |}.
+Definition mkxcfg (b : cfg) (rd : list (N * N)) (wc wv pm fv fd : bool) : xcfg :=
+  {| xb := b; read_of := assoc 0 rd; wp_cpu := wc; wp_var := wv; pmu_ok := pm; fix_var := fv; fix_drop := fd |}.
 
 (* ---------------------------------------------------------------- executable property checkers,
    applied to IMPLEMENTATION streams *)
